@@ -197,6 +197,14 @@ class Encoder:
             i = idx_vals[0].t
             i = T.sext(i, 64) if T.width(i) < 64 else i
             return Ptr(base.obj, T.bvop("bvadd", base.idx, i), base_ty)
+        # named single-field struct wrapping one array (au::detail::StringConstant<N> { char[N+1] }): %T* @g with (0, 0, i)
+        if base_ty.startswith("%") and len(idx_vals) == 3 and isinstance(base.obj, str) and base.obj in self.mod.globals \
+                and all(T.is_const(v.t) and v.t.attr == 0 for v in idx_vals[:2]) and T.is_const(base.idx) and base.idx.attr == 0 \
+                and _STRUCT_WRAPPED_ARRAY.search(self.mod.globals[base.obj]):
+            data = parse_global_init(self.mod.globals[base.obj])
+            if data is not None:
+                i = idx_vals[2].t
+                return Ptr(base.obj, T.zext(i, 64) if T.width(i) < 64 else i, data[0])
         raise IRUnsupported("gep shape " + base_ty)
 
     # ---- UB bookkeeping
@@ -811,8 +819,14 @@ def _next_down(fmt, bits):
     return bits - 1
 
 
+_STRUCT_WRAPPED_ARRAY = re.compile(r'constant\s+%(?:"[^"]*"|[\w.$]+)\s+\{\s*(\[\d+ x i\d+\]\s+(?:c".*"|zeroinitializer|\[.*\]))\s*\}(,\s*(comdat|align).*)?$')
+
+
 def parse_global_init(text):
     """'... constant [4 x i8] c"abc\\00"' or '[3 x i64] [i64 1, i64 2, i64 3]' -> (elem_ty, [ints])"""
+    ms = _STRUCT_WRAPPED_ARRAY.search(text)
+    if ms:      # constant %"struct" { [N x i8] c"..." }  ->  constant [N x i8] c"..."
+        text = "constant " + ms.group(1)
     m = re.search(r"constant\s+\[(\d+) x (i\d+)\]\s+(.*?)(,\s*(comdat|align).*)?$", text)
     if not m:
         m2 = re.search(r"constant\s+(i\d+)\s+(-?\d+)", text)
